@@ -8,7 +8,7 @@
    csr_matrix((data, (rows, cols)), shape=(nobranch, nobranch)) which raises ValueError for a negative or too large
    index and silently adds entries with equal (row, col).
    Executable definitions only. *)
-From Coq Require Import String ZArith List Bool Arith Lia.
+From Coq Require Import String ZArith QArith List Bool Arith Lia.
 From PPV Require Import Base.Out.
 Import ListNotations.
 Local Open Scope Z_scope.
@@ -61,7 +61,21 @@ Definition dispatch (ac : bool) (algorithm : string) (only_ref_buses dist_slack 
   else if (String.eqb algorithm "gs") || (String.eqb algorithm "fdbx") || (String.eqb algorithm "fdxb") then SPypower
   else SRaise.
 
+(* ---- pf/iwamoto_multiplier.py  all_roots = roots([g3, g2, g1, g0]); np_roots = all_roots[-1].real if len(all_roots) else 1.0
+   (after "fix: iwamoto_nr works on networks without PQ buses").  numpy.roots strips leading zero coefficients and
+   returns as many roots as the remaining degree.  Before the repair the code took index 2, which exists only for a
+   genuine cubic; g3 = 2*c2.c2 and g2 = 3*c1.c2 vanish when the net has no PQ bus (dVm = 0, so c2 = -y(dx) = 0). *)
+Fixpoint strip0 (l : list Q) : list Q :=
+  match l with [] => [] | x :: t => if Qeq_bool x 0 then strip0 t else l end.
+Definition n_roots (l : list Q) : nat := pred (length (strip0 l)).
+(* which root is used: Some (position of the last root), or None = the constant multiplier 1.0; never an IndexError *)
+Definition iwamoto_pick (g3 g2 g1 g0 : Q) : option nat :=
+  match n_roots [g3; g2; g1; g0] with O => None | S k => Some k end.
+(* the index test of the code before the repair (roots(...)[2]) *)
+Definition iwamoto_index_ok_old (g3 g2 g1 g0 : Q) : bool := Nat.ltb 2 (n_roots [g3; g2; g1; g0]).
+
 (* ---- Run wrappers *)
+Definition run_n_roots (l : list Q) : out := onat (n_roots l).
 Definition oentry (e : entry) : out := OL [onat (fst (fst e)); OZ (snd (fst e)); OZ (snd e)].
 Definition run_bibc (nobus nobranch : nat) (isls : list island) : out :=
   match bibc nobus nobranch isls with
